@@ -24,7 +24,7 @@ FILES = {
     "src/map/mod.rs": ["C01", "C02", "C04", "C09", "C10", "C15", "C16"],
     "src/map/entry.rs": ["C01", "C04", "C18", "C20"],
     "src/map/iter.rs": ["C03", "C09", "C10", "C13"],
-    "src/trieview/mod.rs": ["C11", "C12", "C13"],
+    "src/trieview/mod.rs": ["C11", "C12", "C13", "C04"],
     "src/trieview/union.rs": ["C05", "C08", "C13"],
     "src/trieview/intersection.rs": ["C06", "C13"],
     "src/trieview/difference.rs": ["C07", "C08", "C13"],
